@@ -196,6 +196,19 @@ def run(tier, seed):
     if not st2["ok"]:
         raise vlib.Inconclusive("observation self-test (order) failed: %r" % st2)
 
+    # measured, not judged (the reference is silent): unsorted outputs that differ from the reference order
+    probe = [o for i, o in enumerate(obs) if i not in bad_idx and o["c"]["mode"] != "-s" and o["c"]["ul"]][:4000]
+    off, n2 = b3.validate("JoinObs", probe, invariant="InReferenceOrder")
+    states += n2
+    transitions += n2
+    cov["measured_not_judged"] = {
+        "what": "default-mode outputs with --ul that are not in the order 'right stream in order, then unpaired left "
+                "records in left-file order' (allowed: the reference fixes neither the order among unpaired records nor "
+                "the place of unpaired right records)",
+        "examined": len(probe), "different": len(off),
+        "example": ({"left": probe[off[0][0]]["left"], "right": probe[off[0][0]]["right"],
+                     "output": probe[off[0][0]]["out"]} if off else None)}
+
     nontrivial = {json.dumps(o, sort_keys=True) for o in obs if o["out"] and o["left"] and o["right"]}
     configs = {json.dumps(x["c"], sort_keys=True) for x in cases}
     by_mode = {}
